@@ -288,6 +288,24 @@ fn binder_case(cx: &mut Cx, r: &mut Rng) {
         (Ok(o), Some(why)) => cx.violation(&format!("C05/call-accepted-despite-{why}"), format!("the call rendered {:?} although the rules reject it ({why})", clip(o, 300)), replay.clone()),
         (Err(e), None) => cx.violation("C05/valid-call-rejected", format!("the call failed: {}; expected {:?}", clip(e, 300), clip(&expected, 200)), replay.clone()),
     }
+    // ---- the same call from a one-off string: registered components are callable from render_str just the same
+    if site == 0 {
+        cx.eval();
+        match guard(|| t.render_str(&call, &ctx, false).map_err(|e| e.to_string())) {
+            Ok(rs) => {
+                cx.count("render_str_calls_compared", 1);
+                let same = match (&rs, &got) {
+                    (Ok(a), Ok(b)) => a == b,
+                    (Err(_), Err(_)) => true,
+                    _ => false,
+                };
+                if !same {
+                    cx.violation("C05/render_str-differs-from-registered-template", format!("the call rendered through render_str gave {:?}, as a registered template {:?}", rs.as_ref().map(|s| clip(s, 200)), got.as_ref().map(|s| clip(s, 200))), replay.clone());
+                }
+            }
+            Err(p) => cx.violation(&format!("C05/panic/{}", panic_site(&p)), format!("render_str panicked: {p}"), replay.clone()),
+        }
+    }
     // ---- API equivalence: render_component(name, ctx, body, flag) == the equivalent call from a template
     if site == 0 {
         let mut actx = Context::new();
